@@ -101,6 +101,8 @@ def build(ex):
     l16 = {c.lid: c for c, v in C16.build(ex)}
     lc = l16['L4b']
     lc.lid, lc.name = 'Lc-process', 'C02.Lc-process ProcessWorker._get_result after death == the pair of the LAST message the child wrote (and its user_state)'
+    # C02 speaks about outcomes that arrive intact (as Lc-remote below assumes); a final message that cannot be rebuilt in the parent is the subject of C01.L2 and C16.L4*
+    lc.options = {k: v for k, v in lc.options.items() if k != 'recv_raises'}
     lemmas.append((lc, None))
 
     def t_setup(ex_, env):
